@@ -6,12 +6,13 @@ from inspect import isabstract, isclass
 import typing
 from typing import (
         Any, cast, Dict, Iterable, Mapping, MutableMapping, MutableSequence,
-        List, Sequence, Tuple, Union)
+        List, Optional, Sequence, Set, Tuple, Union)
 from typing_extensions import Type
 
 import yaml
 from yaml.resolver import Resolver
 
+from yatiml.exceptions import RecognitionError
 from yatiml.introspection import class_subobjects
 
 
@@ -246,7 +247,9 @@ def is_string_like(type_: Type) -> bool:
     return issubclass(type_, (str, UserString, String))
 
 
-def strip_tags(resolver: Resolver, node: yaml.Node) -> None:
+def strip_tags(
+        resolver: Resolver, node: yaml.Node,
+        _ancestors: Optional[Set[int]] = None) -> None:
     """Strips tags from mappings in the tree headed by node.
 
     This keeps yaml from constructing any objects in this tree.
@@ -254,20 +257,35 @@ def strip_tags(resolver: Resolver, node: yaml.Node) -> None:
     Args:
         resolver: Resolver to tag scalar nodes with
         node: Head of the tree to strip
+
+    Raises:
+        RecognitionError: If the node contains itself through an alias.
     """
     if isinstance(node, yaml.ScalarNode):
         if not node.tag.startswith('tag:yaml.org,2002:'):
             node.tag = resolver.resolve(
                     yaml.ScalarNode, node.value, (True, False))
-    elif isinstance(node, yaml.SequenceNode):
+        return
+
+    if _ancestors is None:
+        _ancestors = set()
+    if id(node) in _ancestors:
+        raise RecognitionError(
+                '{}\nThis node contains itself via an alias, which is not'
+                ' supported.'.format(node.start_mark))
+    _ancestors.add(id(node))
+
+    if isinstance(node, yaml.SequenceNode):
         node.tag = 'tag:yaml.org,2002:seq'
         for subnode in node.value:
-            strip_tags(resolver, subnode)
+            strip_tags(resolver, subnode, _ancestors)
     elif isinstance(node, yaml.MappingNode):
         node.tag = 'tag:yaml.org,2002:map'
         for key_node, value_node in node.value:
-            strip_tags(resolver, key_node)
-            strip_tags(resolver, value_node)
+            strip_tags(resolver, key_node, _ancestors)
+            strip_tags(resolver, value_node, _ancestors)
+
+    _ancestors.remove(id(node))
 
 
 def cjoin(conjuction: str, words: Iterable[str]) -> str:
